@@ -63,7 +63,10 @@ impl IsSubset for Value {
                     elements: elements.clone(),
                     optional: true,
                 }),
-                Self::Array { r#type, .. } => {
+                Self::Array {
+                    r#type,
+                    optional: true,
+                } => {
                     let Self::OneOf { variants, .. } = &&**r#type else {
                         return false;
                     };
